@@ -105,6 +105,12 @@ def kw_values(r, fn):
     def num():
         v = r.choice([1, 2, 3])
         c = r.random()
+        if c < 0.12:
+            return r.choice([-1, -2, -1, -2, -3])  # hash(-1) == hash(-2) in CPython
+        if c < 0.18:
+            return r.choice([-1.0, -2.0])
+        if c < 0.26:
+            return r.choice([0.0, -0.0])  # equal, same type, same hash - but not the same value for the function
         if c < 0.4:
             return v
         if c < 0.6:
@@ -192,7 +198,21 @@ def gen_case(seed, cfg, index=0):
             # same adapter and description, (maybe) another keyword value: cache hit with a changed keyword
             prev = r.choice(ops)
             a = prev["a"]
-            op = {"a": a, "struct": prev["struct"], "kw": kw_values(r, adapters[a]["fn"]) if r.random() < 0.8 else prev["kw"], "kind": "exec", "fault": None, "data_seed": r.randrange(1 << 20)}
+            kw = kw_values(r, adapters[a]["fn"]) if r.random() < 0.8 else prev["kw"]
+            if r.random() < 0.35:  # values that an imprecise cache key would conflate with the earlier call's
+                kw = dict(prev["kw"])
+                for k2, v2 in list(kw.items()):
+                    if isinstance(v2, bool) or not isinstance(v2, int | float):
+                        continue
+                    if v2 in (-1, -2):
+                        kw[k2] = type(v2)(-3 - v2)  # hash(-1) == hash(-2)
+                    elif v2 == 0 and isinstance(v2, float):
+                        kw[k2] = -v2  # 0.0 / -0.0
+                    elif isinstance(v2, int):
+                        kw[k2] = r.choice([float(v2), True if v2 == 1 else float(v2), -v2])
+                    else:
+                        kw[k2] = r.choice([int(v2) if v2 == int(v2) else -v2, -v2])
+            op = {"a": a, "struct": prev["struct"], "kw": kw, "kind": "exec", "fault": None, "data_seed": r.randrange(1 << 20)}
         else:
             a = r.randrange(len(adapters))
             op = {"a": a, "struct": gen_struct(r, adapters[a]["kind"], adapters[a]["fn"]), "kw": kw_values(r, adapters[a]["fn"]), "kind": "exec", "fault": None, "data_seed": r.randrange(1 << 20)}
@@ -320,9 +340,11 @@ def run_index(i, master, cfg):
 
 
 def _same_kw(passed, got):
-    """type-exact and value-equal (tuples element-wise)."""
+    """type-exact and value-equal (tuples element-wise; the sign of a zero counts)."""
     if type(passed) is not type(got):
         return False
+    if isinstance(passed, float) and passed == 0 and got == 0:
+        return np.signbit(passed) == np.signbit(got)
     if isinstance(passed, tuple):
         return len(passed) == len(got) and all(_same_kw(a, b) for a, b in zip(passed, got))
     return passed == got
@@ -523,7 +545,7 @@ def exec_case(case, cfg):
 def shrink_case(case, klass, cfg):
     def fails(c):
         r = exec_case(c, cfg)
-        return r["verdict"] in ("violation", "known") and r.get("klass") == klass
+        return r["verdict"] == cfg.get("want_verdict", "violation") and r.get("klass") == klass
 
     if not fails(case):
         return case
